@@ -1,12 +1,13 @@
 (* C29 - Lexer tokens tile the input.  Statements only; proofs are in Proofs/XLexer*.v.
-   [parser_cfg] is the lexer configuration of parser.Parse (Model/XLexerTables.v); [as_is] is the
-   lexer as written in the pinned tree, [repaired] the lexer with the two proposed repairs
-   (flush of trailing unrecognised bytes; return after the short-escape snippet). *)
+   [parser_cfg] is the lexer configuration of parser.Parse (Model/XLexerTables.v); [repaired] is the
+   lexer of the working tree, i.e. with the two repairs (flush of trailing unrecognised bytes;
+   return after the short-escape snippet); [as_is] is the lexer as it was in the pinned tree before
+   them.  The theorems about [as_is] are kept as historical lemmas: they record what failed. *)
 From Coq Require Import List NArith ZArith Bool.
 From PV Require Import Model.XLexer Model.XLexerTables Proofs.XLexerLoop Proofs.XLexer Proofs.XLexerParser Proofs.XLexerBraces.
 Import ListNotations.
 
-(* the repaired lexer: for every text the prelude accepts, lexing ends normally (fuel length+1
+(* the lexer (with the repairs): for every text the prelude accepts, lexing ends normally (fuel length+1
    is enough, no panic) and the tokens are contiguous and their texts concatenate to the text *)
 Theorem C29_tokens_tile : forall s, prelude_ok parser_cfg s ->
   exists ts ds, xlex parser_cfg repaired s = XDone ts ds
@@ -14,14 +15,14 @@ Theorem C29_tokens_tile : forall s, prelude_ok parser_cfg s ->
 Proof. exact tokens_tile_lemma_repaired. Qed.
 Print Assumptions C29_tokens_tile.
 
-(* the lexer as written: a text the prelude accepts whose tokens do not cover it (a lone ^) *)
+(* historical, the lexer before the repairs: a text the prelude accepts whose tokens do not cover it (a lone ^) *)
 Theorem C29_tokens_tile_refuted :
   exists s ts ds, prelude_ok parser_cfg s /\ xlex parser_cfg as_is s = XDone ts ds
                   /\ concat (map (text_of s) ts) <> s.
 Proof. exact tokens_tile_refuted_lemma. Qed.
 Print Assumptions C29_tokens_tile_refuted.
 
-(* the lexer as written, whenever its main loop ends normally in state st: the tokens are
+(* historical, the lexer before the repairs, whenever its main loop ends normally in state st: the tokens are
    contiguous, and they cover the text exactly when no unrecognised bytes are pending at the end
    or an unclosed bracket makes fuseBraces push (which flushes them) *)
 Theorem C29_tokens_tile_partial : forall s st, final_state parser_cfg as_is s = Some st ->
@@ -30,13 +31,13 @@ Theorem C29_tokens_tile_partial : forall s st, final_state parser_cfg as_is s = 
 Proof. exact tokens_tile_partial_lemma. Qed.
 Print Assumptions C29_tokens_tile_partial.
 
-(* ... and its main loop does end normally unless the text ends in a backslash *)
+(* historical: ... and its main loop does end normally unless the text ends in a backslash *)
 Theorem C29_loop_ends_partial : forall s, prelude_ok parser_cfg s -> last_byte s <> Some 92%N ->
   exists st, final_state parser_cfg as_is s = Some st.
 Proof. exact final_state_partial_lemma. Qed.
 Print Assumptions C29_loop_ends_partial.
 
-(* the second way the lexer as written leaves text uncovered: the panic inside
+(* historical, the second way the lexer before the repairs leaves text uncovered: the panic inside
    errtoken.InvalidEscape aborts lexing (a quote followed by a backslash) *)
 Theorem C29_tokens_tile_refuted_by_panic :
   exists s ts ds, prelude_ok parser_cfg s /\ xlex parser_cfg as_is s = XICE ts ds.
